@@ -6,6 +6,7 @@ import JS.Codec
 import JS.Drafts
 import JS.History
 import JS.Module
+import JS.Format
 import JS.Spec.Equality
 import JS.Spec.Numeric
 import JS.Spec.Pointer
@@ -92,7 +93,8 @@ def decStore (j : Option Json) : List (Str × Json) :=
       | .arr [.str k, v] => some (k, v) | _ => none
   | _ => []
 
-def noFmtImpl : FmtImpl := ⟨fun _ _ => none⟩
+/-- the built-in format functions modelled in Lean (JS.Format); the rest go to the oracle -/
+def noFmtImpl : FmtImpl := builtinImpl
 
 def resToExcept {α : Type} (r : Res α) (onRaise : Exc → Json) : Except Query (Except Json α) :=
   match r with
@@ -320,8 +322,21 @@ def runSPEC (env : Env) (p : Json) : Except Query Json :=
       .ok (.obj [ ("valid".toList, .bool (Spec.valid env d schema inst)),
                   ("shaped".toList, .bool (Spec.shaped d schema)) ])
 
+/-- FMT: `FormatChecker.check(instance, format)` on a described checker -/
+def runFMT (env : Env) (p : Json) : Except Query Json :=
+  let d : Option Draft := match fldD p "cls" .null with | .str s => Draft.ofTag? (String.ofList s) | _ => none
+  match decFc d (fldD p "fc" .null) with
+  | none => .ok (.arr [jS "no-checker"])
+  | some fc =>
+    match fmtCheck env builtinImpl fc (fldD p "inst" .null) (strOf (fldD p "name" (.str []))) with
+    | .miss q => .error q
+    | .raise e => .ok (.arr [jS "raised", encExc e])
+    | .ok none => .ok (.arr [jS "ok"])
+    | .ok (some cause) => .ok (.arr [jS "FormatError", match cause with | some c => jS c | none => .null])
+
 def run (ch : String) (env : Env) (p : Json) : Except Query Json :=
   match ch with
+  | "FMT" => runFMT env p
   | "VAL" => runVAL env p
   | "HIST" => runHIST env p
   | "MOD" => runMOD env p
